@@ -407,7 +407,22 @@ fn build(rng: &mut Rng) -> (Program, bool, Pre, &'static str) {
     };
     let mut program = gen::generate(rng, &opts);
     let mut family = "valid";
-    if rng.chance(1, 2) {
+    // (Below origin 0x2000 such a program has more than 57k statements and runs into the
+    // assembler's own 16-bit statement counter, which is C05's subject.)
+    if rng.chance(1, 10) && program.origin() >= 0x2000 {
+        // An image too long to be loaded later (origin + words + 1 > 0x10000): compiling it is
+        // still all-or-nothing
+        let origin = program.origin() as usize;
+        let have = program.n_words();
+        let pad = 0x10000usize.saturating_sub(origin + have) + rng.usize_below(6);
+        program.stmts.push(Stmt {
+            labels: vec!["Huge_pad_1".to_string()],
+            text: format!(".blkw x{:X}", pad),
+            words: pad,
+            breaks: 0,
+        });
+        family = "image_too_long_to_load";
+    } else if rng.chance(1, 2) {
         let k = rng.usize_below(program.stmts.len() + 1);
         let width = if stack { *rng.pick(&[9u32, 10, 11]) } else { *rng.pick(&[9u32, 11]) };
         plant_failure(&mut program, k, width);
